@@ -85,4 +85,23 @@ AggLemmas(phi, M, f, E) ==
              /\ AggRate(QMul(a, phi), M, f, E) = [g \in 1..n |-> QMul(a, r[g])]
        /\ \A g \in 1..n : (QSign(f[g]) > 0 /\ QSign(M) > 0 /\ QSign(phi) > 0) =>
              QSign(r[g]) = QSign(QSub(ebar, E[g]))                           \* grows iff below the mean
+
+\* ---------------------------------------------------------------- lumping (replication) lemma
+\* An aggregate in which lumped grain g (volume W[g], energy E[g]) is present as r[g] identical copies of volume
+\* W[g] / r[g] has, copy for copy, the lumped rate divided by r[g]; the mean energy is that of the lumped aggregate.
+\* Together with "the spin of a grain depends on its own orientation and on the flow only" (Kernels is a pointwise
+\* map) this gives the expected rates of an aggregate of ANY size from the exact kernel of its distinct grains:
+\* the size sweep of the harness (harness/sizesweep.py) applies it at every grain count up to its bound.
+LumpOf(r) == LET n == Len(r)
+                 RECURSIVE build(_)
+                 build(g) == IF g > n THEN <<>> ELSE [i \in 1..r[g] |-> g] \o build(g + 1)
+             IN build(1)
+LumpLemma(phi, M, W, E, r) ==
+    LET idx == LumpOf(r)
+        fr == [i \in 1..Len(idx) |-> QDiv(W[idx[i]], Q(r[idx[i]]))]
+        Er == [i \in 1..Len(idx) |-> E[idx[i]]]
+        lumped == AggRate(phi, M, W, E)
+        repl == AggRate(phi, M, fr, Er)
+    IN /\ QSumSeq(fr) = QSumSeq(W)
+       /\ \A i \in 1..Len(idx) : repl[i] = QDiv(lumped[idx[i]], Q(r[idx[i]]))
 =============================================================================
